@@ -153,7 +153,16 @@ def _validate_one(module, cfg, scratch, trace_path, idx, timeout, env, xmx):
     e = dict(env or {})
     e["TRACE"] = str(trace_path)
     e["OUT"] = str(outp)
-    r = tlc(module, cfg, scratch, env=e, workers=1, timeout=timeout, xmx=xmx, deque=True, light=True)
+    for attempt in range(3):
+        r = tlc(module, cfg, scratch, env=e, workers=1, timeout=timeout, xmx=xmx, deque=True, light=True)
+        if r["ok"] and outp.exists():
+            break
+        # a JVM that died without a TLC diagnosis (memory / process pressure on a loaded machine) is retried;
+        # a genuine evaluation error is reported at once
+        if "Error:" in r["out"] or "error" in r["out"].lower().split("picked up")[0]:
+            break
+        log(f"[tlc] {module} shard {idx}: no verdict and no TLC error (rc={r['rc']}), retrying")
+        time.sleep(2 + 3 * attempt)
     if not r["ok"] or not outp.exists():
         log(r["out"][-6000:])
         raise ToolError(f"trace validation did not complete: {module} shard {idx}")
@@ -161,7 +170,7 @@ def _validate_one(module, cfg, scratch, trace_path, idx, timeout, env, xmx):
     return r, v
 
 
-def validate_trace(module, cfg, scratch, trace_path, shards=1, timeout=900, env=None, xmx="3g"):
+def validate_trace(module, cfg, scratch, trace_path, shards=1, timeout=900, env=None, xmx="2g"):
     """Validate an ndjson trace against spec/<module>. Events must carry a unique integer `id`.
     With shards > 1 the file is split into contiguous chunks at episode boundaries (events with
     `ep_start: true`, or any line if no event has it) validated by independent TLC processes.
@@ -195,7 +204,7 @@ def validate_trace(module, cfg, scratch, trace_path, shards=1, timeout=900, env=
         p.write_text("\n".join(ch) + "\n")
         paths.append(p)
     results = []
-    with ThreadPoolExecutor(max_workers=min(len(paths), 14)) as ex:
+    with ThreadPoolExecutor(max_workers=min(len(paths), 12)) as ex:
         futs = [ex.submit(_validate_one, module, cfg, scratch, p, i, timeout, env, xmx)
                 for i, p in enumerate(paths)]
         for f in futs:
